@@ -16,6 +16,7 @@ an empty list is `_`)
   → `good= clause= isfail=`
 * `odeJ sd use gamma ; matrix`  → `j= doc= idx= size= filled=`
 * `odeF evals`  → `ok= maxOk= minErr=`   (bookkeeping of `__IntegrationState.f`)
+* `odeV gamma,testTime,trainingTime` → `ok=`   (parameter validation of `System.__init__`)
 -/
 namespace Drv.C10
 open Ode
@@ -171,10 +172,14 @@ def handle (op rest : String) : Option String :=
         let useN : Nat := if use ≤ 0 then sd else use.toNat
         let ncols := (ode.headD []).length
         let size : Int := ((ode.length : Int) - 1) * ((ncols : Int) - 1 - sd + useN) - useN
-        let fill := match jCompute ode sd useN g (Array.replicate size.toNat none) with
+        let fill := match jCompute ode sd useN g (List.replicate size.toNat none) with
           | some s => s!"idx={s.index} filled={s.dest.all Option.isSome}"
           | none => "idx=oob filled=false"
         pure s!"j={j} doc={showRat (docJ ode sd useN g)} t={match tFromOde ode with | some t => showRat t | none => "oob"} size={size} {fill}"
+      | _ => none
+  | "odeV", [vs] => do
+      match ← vlist? vs with
+      | [g, t1, t2] => pure s!"ok={sysOk g t1 t2}"
       | _ => none
   | "odeF", [evs] => do
       let s := FSt.init.evals (← evals? evs)
